@@ -421,12 +421,12 @@ func (p Prop) checkClean(c *Case, x *execInfo) (string, string, string) {
 			id := n.Ptr.(*fam.User).ID
 			same := 0
 			for _, m := range x.nodes {
-				if m.Root && m.Ptr.(*fam.User).ID == id {
+				if m.Model == "User" && m.Ptr.(*fam.User).ID == id {
 					same++
 				}
 			}
 			if same > 1 {
-				continue // two argument records with one key: which one is stored last is not specified
+				continue // two records of the value carry this key (argument or association): which one is stored last is not specified
 			}
 			line := ""
 			for _, l := range strings.Split(sr.D1, "\n") {
